@@ -300,7 +300,12 @@ func (g *gen) stringCase(s, tag string, legacy bool) hx.Case {
 		}
 		lines = append(lines, res+tokS(s))
 	}
+	// both codec passes of the observation: the document into FromBytes, and the value alone
+	// inside Get (yaml.Marshal -> yaml.Unmarshal)
 	_, rt := yamlRoundTrips(map[string]any{"k": s})
+	if rt {
+		_, rt = yamlRoundTrips(s)
+	}
 	tags := []string{"string", tag}
 	if !rt {
 		tags = append(tags, "yaml-does-not-round-trip")
@@ -403,6 +408,52 @@ func (t *node) walkStrings(f func(s string)) {
 	for _, k := range t.kids {
 		k.walkStrings(f)
 	}
+}
+
+// selected is the tree after dimension reduction (nil when a switch has no branch to follow); only
+// used to decide whether the values Get will re-marshal survive yaml.v3.
+func (t *node) selected(sel int) *node {
+	switch t.kind {
+	case 'W':
+		pick := -1
+		for i, key := range t.keys {
+			if key == fmt.Sprintf("B%d", sel) {
+				pick = i
+			}
+		}
+		for i, key := range t.keys {
+			if pick < 0 && key == "D" {
+				pick = i
+			}
+		}
+		if pick < 0 {
+			return nil
+		}
+		return t.kids[pick].selected(sel)
+	case 'L', 'M':
+		r := &node{kind: t.kind, keys: t.keys}
+		for _, k := range t.kids {
+			sk := k.selected(sel)
+			if sk == nil {
+				return nil
+			}
+			r.kids = append(r.kids, sk)
+		}
+		return r
+	}
+	return t
+}
+
+func (t *node) allRoundTrip() bool {
+	if _, ok := yamlRoundTrips(t.goValue()); !ok {
+		return false
+	}
+	for _, k := range t.kids {
+		if !k.allRoundTrip() {
+			return false
+		}
+	}
+	return true
 }
 
 func (t *node) count(kind byte) int {
@@ -522,7 +573,9 @@ func (g *gen) docCase(kind string) hx.Case {
 		lines = append(lines, "tmpl get "+p)
 	}
 	lines = append(lines, "tmpl get "+root.keys[0]+".nope")
-	if _, rt := yamlRoundTrips(root.goValue()); !rt {
+	// YAML is not modelled: the document must survive yaml.v3 into FromBytes, and so must every
+	// subtree on its own (Get re-marshals the value it returns).
+	if sel0 := root.selected(sel); !root.allRoundTrip() || (sel0 != nil && !sel0.allRoundTrip()) {
 		domain = false
 		tags = append(tags, "yaml-does-not-round-trip")
 	}
